@@ -192,7 +192,10 @@ class ConvexHullStub:
             if pos and neg:
                 continue
             if not pos and not neg:
-                raise core.Abort("coplanar input to the 3-D hull stub")
+                # qhull's documented behaviour for a flat point set (no full-dimensional initial simplex)
+                from scipy.spatial import QhullError
+
+                raise QhullError("QH6154 Qhull precision error: Initial simplex is flat (contract stub: all input points are coplanar)")
             if pos:
                 N = [-x for x in N]
             facets.append((N, a, frozenset(members)))
